@@ -215,6 +215,15 @@ def corpus():
         # slow credentials: the authenticator of one client waits while everybody else goes on
         out.append(case_dict(kind, "tcp", True, 3, ["c1:g", "p1", "c2:s", "p1", "c3:s", "c4:g", "p4", "k2:g", "p2", "k3:b",
                                                     "p1", "p4"]))
+    # the pool's table is keyed by descriptor NUMBER: a client whose service's on_disconnect blocks goes away (abruptly,
+    # gracefully); while a worker sits in that hook - the connection closed, the number free - a new well-behaved client
+    # connects and is given that very number; then the hook returns.  Also: no newcomer; newcomer after the release
+    for bye in ("a1", "g1"):
+        out.append(case_dict("pool", "tcp", False, 3, ["c1:g", "m1", "c2:g", "p2", bye, "c3:g:1", "p3", "u3:0", "h1", "p3", "p2",
+                                                       "u3:4", "l3", "c4:g", "p4", "p3"]))
+    out.append(case_dict("pool", "tcp", False, 2, ["c1:g", "m1", "c2:g", "a1", "p2", "h1", "c3:g:1", "p3", "p2"]))
+    out.append(case_dict("pool", "tcp", True, 3, ["c1:g", "m1", "c2:g", "m2", "a1", "c3:g:1", "p3", "a2", "c4:g:2", "p4", "h2",
+                                                  "p3", "p4", "h1", "p3", "p4"]))
     # the pool with FEWER than nbThreads workers blocked: unaffected
     out.append(case_dict("pool", "tcp", False, 3, ["c1:g", "c2:g", "r2:" + t4, "c3:g", "r3:" + t4 + "00", "p1", "c4:g", "p4",
                                                    "a2", "p1", "a3", "p4"]))
@@ -457,6 +466,7 @@ def oracle_case(case, known=(), ceiling=servers.CEILING):
     sess = servers.Session(kind, case["transport"], case["auth"], case["nb"])
     try:
         hostile, holding, stalled = set(), set(), set()
+        armed, in_hook = set(), set()
         for i, tok in enumerate(case["ops"]):
             t = tok[0]
             if t == "X":
@@ -464,7 +474,7 @@ def oracle_case(case, known=(), ceiling=servers.CEILING):
             k = int(tok[1:].split(":")[0])
 
             where = "after op %d (%s): " % (i, tok[:60])
-            if t == "c" and not tok.endswith(":g"):
+            if t == "c" and tok.split(":")[1] != "g":
                 hostile.add(k)
                 if tok.endswith(":s") and case["auth"]:
                     stalled.add(k)
@@ -474,6 +484,8 @@ def oracle_case(case, known=(), ceiling=servers.CEILING):
                     hostile.discard(k)        # slow, but well-behaved from here on
             if t == "x":
                 hostile.add(k)
+            if t == "c" and tok.count(":") == 2 and obs != "ok":
+                continue        # the kernel did not hand out the expected number: the scenario did not take place
             if t in "ri":
                 hostile.add(k)
                 data = bytes.fromhex(tok.split(":")[1]) if t == "r" else b"".join(
@@ -484,10 +496,16 @@ def oracle_case(case, known=(), ceiling=servers.CEILING):
                 holding.discard(k)
                 stalled.discard(k)
             obs = sess.do(tok)
-            if t in "az" or (t == "c" and tok[-2:] in (":r", ":b")):
+            if t == "m" and obs == "done":
+                armed.add(k)
+            if t in "azg" and k in armed:
+                in_hook.add(k)              # a worker stays inside its on_disconnect until `h`
+            if t == "h":
+                in_hook.discard(k)
+            if (t in "azh" or (t == "c" and tok[-2:] in (":r", ":b"))) and not in_hook:
                 # a client that has gone (or was turned away) keeps no tracked socket and no descriptor of the server:
                 # otherwise every such client costs the server a descriptor for good, and it dies of EMFILE in the end
-                starving = kind == "pool" and (len(holding) >= case["nb"] or stalled)
+                starving = kind == "pool" and (len(holding | in_hook) >= case["nb"] or stalled)
                 if not starving:
                     def live():
                         return sum(1 for c2 in sess.clients.values() if c2.open and not c2.eof)
@@ -509,7 +527,7 @@ def oracle_case(case, known=(), ceiling=servers.CEILING):
                                 % (live(), sn["c"], sn["f"], sn["fds"])), "C16:%s:departed-client-keeps-descriptor" % kind
             # which known shape, if any, excuses an unanswered good client right now
             excuse = None
-            if kind == "pool" and len(holding) >= case["nb"]:
+            if kind == "pool" and len(holding | in_hook) >= case["nb"]:
                 excuse = SIG_STARVE
             if kind == "pool" and stalled:
                 excuse = excuse or SIG_STALL
@@ -517,8 +535,8 @@ def oracle_case(case, known=(), ceiling=servers.CEILING):
                 continue
             if t == "c" and obs != "ok":
                 return where + "a well-behaved client could not connect: %s" % obs, "C16:%s:not-accepting" % kind
-            if t in "plodu":
-                want = dict(p=("pong",), l=("ref",), o=("keyerr", "resolved"), d=("done",), u=("pong",))[t]
+            if t in "plodum":
+                want = dict(p=("pong",), l=("ref",), o=("keyerr", "resolved"), d=("done",), u=("pong",), m=("done",))[t]
                 if obs not in want:
                     if obs == "timeout" and excuse:
                         if excuse in known:
@@ -528,6 +546,9 @@ def oracle_case(case, known=(), ceiling=servers.CEILING):
                                    % (sorted(holding), case["nb"]) if excuse == SIG_STARVE else
                                    "client(s) %s stall the authentication" % sorted(stalled))), excuse
                     sig = "C16:%s:good-client-call-failed" % kind
+                    if obs == "eof" and any(x[0] == "h" for x in case["ops"][:i]) and any(
+                            x.count(":") == 2 and x[0] == "c" for x in case["ops"][:i]):
+                        sig = "C16:pool:fd-reuse-drops-newcomer"
                     if t == "u":
                         sig = "C16:%s:good-client-wrong-result" % kind
                     if obs == "leak":
@@ -549,7 +570,7 @@ def oracle_case(case, known=(), ceiling=servers.CEILING):
         if not snap["A"] or not snap["L"]:
             return "at the end: accept loop alive=%s listener open=%s" % (snap["A"], snap["L"]), "C16:%s:accept-dead" % kind
         excuse = None
-        if kind == "pool" and len(holding) >= case["nb"]:
+        if kind == "pool" and len(holding | in_hook) >= case["nb"]:
             excuse = SIG_STARVE
         if kind == "pool" and stalled:
             excuse = excuse or SIG_STALL
@@ -643,7 +664,11 @@ def oracle_search(ctx, corr, broken):
     def candidates():
         for d in corr.disagreements[:20]:
             yield d["case"]
-        for case in corpus():
+        cases = corpus()
+        if any("spares_newcomer" in b for b in broken):
+            # the obligation about reused descriptor numbers: its scenarios first
+            cases.sort(key=lambda c: 0 if any(t[0] == "h" for t in c["ops"]) else 1)
+        for case in cases:
             yield case
         while True:
             yield gen_case(r, corp)
